@@ -138,6 +138,15 @@ def run_c11(ctx: Ctx, M: AnnotateModel):
     ctx.ob("C11-R4", f"utils.{fn.name}/fails-closed", okp and nT >= 1,
            "True only from the no-angle-bracket fast path or after the XML parse returned; handlers return False" if okp else why,
            node=fn, mod=M.um)
+    # the verdict is the strict parser's: a recovering parser (recover=True, lxml.html, HTMLParser, a custom parser object) accepts malformed
+    # input and reports it on the side, so "the parse returned" would no longer mean "well-formed"
+    pcalls = [n for n in walk_local(fn) if isinstance(n, ast.Call) and (dotted(n.func) or "").endswith("fromstring")]
+    lenient = [n for n in walk_local(fn) if isinstance(n, ast.Call) and ((dotted(n.func) or "").split(".")[-1] in ("XMLParser", "HTMLParser", "XMLPullParser", "HTMLPullParser")
+                                                                          or any(k.arg == "recover" for k in n.keywords))]
+    strict = bool(pcalls) and all((dotted(c.func) or "") in ("etree.fromstring", "lxml.etree.fromstring") and len(c.args) == 1 and not c.keywords for c in pcalls) and not lenient
+    ctx.ob("C11-R4", f"utils.{fn.name}/strict-parser", strict,
+           "the span is judged by lxml.etree's default (strict) XML parser: etree.fromstring(<one argument>), no parser object, no recover mode "
+           f"(parse calls {[norm(c)[:50] for c in pcalls]}, parser constructions {[norm(c)[:40] for c in lenient]})", node=(lenient or pcalls or [fn])[0], mod=M.um)
     handlers = [h for n in walk_local(fn) if isinstance(n, ast.Try) for h in n.handlers]
     okh = bool(handlers) and all(h.type is not None and (dotted(h.type) or "").endswith("XMLSyntaxError") for h in handlers)
     ctx.ob("C11-R4", f"utils.{fn.name}/handler", okh,
